@@ -5,7 +5,11 @@
            Base: nil | L/C/A/E     BaseResp: nil | M/code/E     ApplicationException: typ/M
   lines
     fc <st> blen  <S>                    => <n>
-    fc <st> write <S> <buflen>           => <n> <buffer hex>            (buffer pre-filled with a5)
+    fc <st> write <S> <buflen>           => <n> <buffer hex> fw=same|differs   (buffer pre-filled with a5;
+                                            fw: FastWrite(buf) on a second buffer gave the same bytes and length)
+    fc <st> acc <S>                      => <S via getters> <IsSetExtra> <S fields> str=ok    (base, baseresp: value built
+                                            with NewBase()/NewBaseResp() + setters; String() on it and on nil called)
+    fc <st> initdef <S>                  => <S after InitDefault> <FastMarshal hex>
     fc <st> read  <hex> <S0>             => ok <n> <S> | err <e> <S>
     fc <st> rt    <S>                    => <marshalled hex> <e> <S'>   (FastMarshal, FastUnmarshal into a zero value)
     nc <st> <S> <buflen> <w|nil> [cap]   => <n> <buffer hex> [<piece hex>:<remainCap>]*
@@ -104,6 +108,10 @@ structure StOps (α : Type) where
   assemble : α → List Fld → Option α
   /-- id of the map field -/
   mapId : Nat
+  fastWrite : Nat → Option α → SMap → Bytes → TOut (WS × Nat)   -- model of FastWrite(b)
+  viaAccessors : α → α                        -- model: New…() + setters, read back through the getters
+  initDefault : α → α                         -- model of InitDefault()
+  withDefaults : α → α                        -- spec
 
 def thr : Nat := Facts.nocopyWriteThreshold
 def fillByte : UInt8 := 0xa5
@@ -167,6 +175,10 @@ def baseOps : StOps Base where
   marshal := fastMarshalBase dirt0
   assemble := baseAssemble
   mapId := 6
+  fastWrite := fastWriteBase
+  viaAccessors := viaAccessorsBase
+  initDefault := initDefaultBase
+  withDefaults := Base.withDefaults
 
 def respOps : StOps BaseResp where
   parse := parseRespTok
@@ -180,6 +192,10 @@ def respOps : StOps BaseResp where
   marshal := fastMarshalBaseResp dirt0
   assemble := respAssemble
   mapId := 3
+  fastWrite := fastWriteBaseResp
+  viaAccessors := viaAccessorsBaseResp
+  initDefault := initDefaultBaseResp
+  withDefaults := BaseResp.withDefaults
 
 def exOps : StOps AppEx where
   parse := fun s => (parseExTok s).map some
@@ -193,6 +209,10 @@ def exOps : StOps AppEx where
   marshal := fun e _ _ => match e with | some e => fastMarshalAppEx dirt0 e | none => .panic "nil"
   assemble := exAssemble
   mapId := 0
+  fastWrite := fun _ e _ b => match e with | some e => fastWriteAppEx e b | none => .panic "nil"
+  viaAccessors := id
+  initDefault := id
+  withDefaults := id
 
 /-! ## the reference field parser (spec side): the Thrift grammar, nesting ≤ 64 -/
 
@@ -262,17 +282,21 @@ def hBlen {α} (o : StOps α) (p : Option α) (impl : String) : String × String
 
 def hWrite {α} (o : StOps α) (p : Option α) (buflen : Nat) (impl : String) : String × String :=
   let m := extraOf o p
-  let toks := impl.splitOn " "
+  let toks := (impl.splitOn " ").filter (fun t => !t.startsWith "fw=")
   let parsed : Option (Nat × Bytes) := match toks with
     | [n, h] => do let n ← n.toNat?; let h ← parseHex h; pure (n, h)
     | _ => none
   let it := match parsed with
     | some (n, h) => recoverIt o (h.take n) m
     | none => m
-  let model := outStr wsStr (o.write thr false p it (List.replicate buflen fillByte))
+  let buf := List.replicate buflen fillByte
+  let m1 := outStr wsStr (o.write thr false p it buf)
+  let m2 := outStr wsStr (o.fastWrite thr p it buf)
+  let model := m1 ++ (if m1 == m2 then " fw=same" else " fw=differs")
   let want := o.enc p it
   let verdict :=
-    if buflen < want.length then "na"
+    if impl.endsWith "fw=differs" then "bad:C11:fastwrite-differs"
+    else if buflen < want.length then "na"
     else match parsed with
       | none => if isPanic impl then "bad:C11:write-panic" else "bad:protocol"
       | some (n, h) =>
@@ -360,13 +384,17 @@ def parseNc (impl : String) : Option (Nat × Bytes × Directs) :=
 
 def hNc {α} (o : StOps α) (p : Option α) (buflen : Nat) (w : Bool) (impl : String) : String × String :=
   let m := extraOf o p
-  let parsed := parseNc impl
+  let parsed := parseNc (" ".intercalate ((impl.splitOn " ").filter (fun t => !t.startsWith "fw=")))
   let it := match parsed with
     | some (_, h, ds) => recoverIt o (splice h ds) m
     | none => m
-  let model := outStr wsStr (o.write thr w p it (List.replicate buflen fillByte))
+  let buf := List.replicate buflen fillByte
+  let m1 := outStr wsStr (o.write thr w p it buf)
+  -- with the nil writer the harness also runs FastWrite(buf) and reports whether it gave the same result
+  let model := if w then m1 else
+    m1 ++ (if m1 == outStr wsStr (o.fastWrite thr p it buf) then " fw=same" else " fw=differs")
   let want := o.enc p it
-  let verdict := match parsed with
+  let verdict := if impl.endsWith "fw=differs" then "bad:C15:fastwrite-differs" else match parsed with
     | none => if buflen < want.length then "na" else if isPanic impl then "bad:C15:panic" else "bad:protocol"
     | some (n, h, ds) =>
       if !sameMap it m then (if buflen < want.length then "na" else "bad:C15:map")
@@ -379,6 +407,37 @@ def hNcStr (v : Bytes) (buflen : Nat) (w : Bool) (impl : String) : String × Str
   let verdict := match parseNc impl with
     | none => if buflen < want.length then "na" else if isPanic impl then "bad:C15:panic" else "bad:protocol"
     | some (n, h, ds) => ncVerdict buflen w want n h ds
+  (model, verdict)
+
+/-- NewBase()/NewBaseResp() + setters, read back through the getters; String() called (no text compared) -/
+def hAcc {α} (o : StOps α) (p : α) (impl : String) : String × String :=
+  let model := o.tok (o.viaAccessors p) ++ " " ++ toString (isSetExtra (o.extra p)) ++ " " ++ o.tok p ++ " str=ok"
+  -- spec: the user reads back what was set; IsSetExtra = (Extra != nil)
+  let want := o.tok p ++ " " ++ toString (o.extra p).isSome ++ " " ++ o.tok p ++ " str=ok"
+  (model, if isPanic impl then "bad:C11:accessor-panic" else if impl == want then "ok" else "bad:C11:accessor")
+
+/-- InitDefault() on a dirty struct, then FastMarshal -/
+def hInitDef {α} (o : StOps α) (p : α) (impl : String) : String × String :=
+  let m := (o.extra p).getD []
+  let parsed : Option (String × Bytes) := match impl.splitOn " " with
+    | [t, h] => (parseHex h).map (fun h => (t, h))
+    | _ => none
+  let it := match parsed with
+    | some (_, h) => recoverIt o h m
+    | none => m
+  let q := o.initDefault p
+  let model := match o.marshal (some q) m it with
+    | .ok bytes => o.tok q ++ " " ++ toHex bytes
+    | .err e => "err " ++ terrStr e
+    | .panic s => "PANIC " ++ s
+    | .oob => "OOB"
+  let verdict := match parsed with
+    | none => if isPanic impl then "bad:C11:initdefault-panic" else "bad:protocol"
+    | some (t, h) =>
+      if !sameMap it m then "bad:C11:write-map"
+      else if t != o.tok (o.withDefaults p) then "bad:C11:initdefault"
+      else if h != o.enc (some (o.withDefaults p)) it then "bad:C11:initdefault-bytes"
+      else "ok"
   (model, verdict)
 
 def withSt (st : String) (k : {α : Type} → StOps α → String × String) : String × String :=
@@ -405,6 +464,16 @@ def handleFc (args : List String) (impl : String) : String × String :=
     withSt st (fun o => match parseHex h, o.parse s0 with
       | some b, some (some p0) => hRead o b p0 impl
       | _, _ => ("bad-op", "na"))
+  | ["fc", st, "acc", s] =>
+    if st == "appex" then ("bad-op", "na") else
+    withSt st (fun o => match o.parse s with
+      | some (some p) => hAcc o p impl
+      | _ => ("bad-op", "na"))
+  | ["fc", st, "initdef", s] =>
+    if st == "appex" then ("bad-op", "na") else
+    withSt st (fun o => match o.parse s with
+      | some (some p) => hInitDef o p impl
+      | _ => ("bad-op", "na"))
   | ["fc", st, "rt", s] =>
     withSt st (fun o => match o.parse s with
       | some p => hRt o p impl
